@@ -2,6 +2,7 @@ import RsModel.Lemmas.CodecLookup
 import RsModel.Lemmas.Replay
 import RsModel.Lemmas.PosTree
 import RsModel.Lemmas.ModeTree2
+import RsModel.Lemmas.ModeMap
 /-!
 # C03 — `map()` attributes every position exactly as the chunk stream does
 (T1 of DESIGN: the codec step of the chain.)
@@ -66,12 +67,6 @@ theorem c03_replace (inner : Src) (rs : List Repl) (σ : Store) (hne : rs ≠ []
 
 /-! ## T3: `map()` is built from the text-less stream — and that stream attributes like the normal one -/
 
-theorem attrFrom_nil_ms : ∀ (t : Text) (p : Pos), attrFrom [] p t = List.replicate t.length none := by
-  intro t
-  induction t with
-  | nil => intro p; rfl
-  | cons c cs ih => intro p; simp only [attrFrom, ih, List.length_cons, List.replicate_succ]; rfl
-
 /-- **T3** (columns = true): for every tree of Raw / Original / SourceMapSource leaves (no inner map; ASCII text, sorted map
 inside the text) under ConcatSource and ReplaceSource nodes to any depth (`ModeHyp`; no CachedSource), the text-less stream
 that `map()` consumes (i) is sorted by generated position, (ii) announces exactly the sources and names the normal stream
@@ -89,31 +84,8 @@ that covers the position in the normal-mode stream, and no map is returned exact
 Chain: T1 (codec) ∘ T3 (modes) ∘ `attr_of_stream` (C02 + tokens). `small` = values below 2³¹ (the codec's domain). -/
 theorem c03_tree (s : Src) (h : s.ModeHyp) (final : Bool) (hsmall : ∀ m ∈ chunkMs (s.stream ⟨true, true⟩ []).1.evs, m.small) :
     (∀ sm, (getMap s ⟨true, final⟩ []).1 = some sm → attrFrom (decode sm.mappings) startPos s.src = attrOf (s.stream ⟨true, false⟩ []).1.evs)
-    ∧ ((getMap s ⟨true, final⟩ []).1 = none → attrOf (s.stream ⟨true, false⟩ []).1.evs = List.replicate s.src.length none) := by
-  obtain ⟨b1, b2, b3, b4, _, _, _⟩ := Src.base_facts s h
-  have hm := Src.m3 s h
-  have hN : attrFrom (chunkMs (s.stream ⟨true, false⟩ []).1.evs) startPos s.src = attrOf (s.stream ⟨true, false⟩ []).1.evs := by
-    have := attr_of_stream _ b1 b2 b3
-    rw [b4] at this
-    exact this
-  have hFN := (lookEq_iff s.src _ _).1 hm.look
-  constructor
-  · intro sm hsm
-    simp only [getMap] at hsm
-    rw [mapOfEvs_mappings _ sm hsm, ← hN, ← hFN]
-    apply attrFrom_congr
-    intro q _ _
-    exact c03_codec_step _ hsmall hm.sorted q.line q.col
-  · intro hnone
-    simp only [getMap] at hnone
-    have henc := mapOfEvs_none _ hnone
-    rw [← hN, ← hFN, ← attrFrom_nil_ms s.src startPos]
-    apply attrFrom_congr
-    intro q _ _
-    have := c03_codec_step _ hsmall hm.sorted q.line q.col
-    rw [henc] at this
-    rw [← this]
-    rfl
+    ∧ ((getMap s ⟨true, final⟩ []).1 = none → attrOf (s.stream ⟨true, false⟩ []).1.evs = List.replicate s.src.length none) :=
+  getMap_attr s h final hsmall
 
 /-- `map()` of a ConcatSource or an OriginalSource is `get_map` -/
 theorem c03_map_is_getMap (cs : SrcList) (t name : Text) (o : Opts) (σ : Store) :
